@@ -534,24 +534,31 @@ def all_groups(thorough):
 
 
 def plan(ctx):
+    return plan_with(ctx)
+
+
+def plan_with(ctx, input_t=None, prefix='', unit_prefix='c10_', min_k=1):
+    """input_t/prefix: the same rules and specifications over another input class (C07: an input that grants only the look-ahead a rule requests)"""
     thorough = not ctx.quick()
     qs = []
     have_kf = {k.get('id') for k in vf.load_known('C10')}
     for g in all_groups(thorough):
         kf = g.get('expect_fail')
+        if input_t and (kf or max(c['k'] for c in g['cases']) < min_k):
+            continue
         if kf and kf not in have_kf and not os.environ.get('VERIF_C10_LWSP'):
             vf.log('[C10] note: confirmation query of finding %s not run (no entry with that id in known_findings.json)' % kf)
             continue
         k = max(c['k'] for c in g['cases'])
         NA = k + (3 if thorough else 1)
-        unit = ctx.unit('c10_' + g['name'], text=leafgen.wrapper_text(g['cases'], includes=g.get('includes', ())))
-        h = ctx.write('c10_%s.c' % g['name'], harness_text(g, NA))
+        unit = ctx.unit(unit_prefix + g['name'], text=leafgen.wrapper_text(g['cases'], includes=g.get('includes', ()), input_t=input_t))
+        h = ctx.write('%s%s.c' % (unit_prefix, g['name']), harness_text(g, NA))
         for i, cs in enumerate(chunk(g['cases'], len(g['cases']))):
             cd = {'VF_SPLIT': 1}
             cd.update(('V_' + c['name'], 1) for c in cs)
             qname = '%s/%s' % (g['name'], cs[0]['name'] + ('..' + cs[-1]['name'] if len(cs) > 1 else ''))
-            qs.append(vf.Query(('known/%s/' % kf if kf else '') + qname, unit, h, unwind=NA + 3, cbmc_defines=cd, mem_gb=4 if g['name'].startswith('utf8') else 2, expect_fail=kf,
+            qs.append(vf.Query(prefix + ('known/%s/' % kf if kf else '') + qname, unit, h, unwind=NA + 3, cbmc_defines=cd, mem_gb=4 if g['name'].startswith('utf8') else 2, expect_fail=kf,
                                bounds={'bytes': NA, 'unit_bytes': k, 'rules': [c['cxx'] for c in cs], 'modes': ['ar', 'ao', 'nr', 'no'],
                                        'spec': {c['cxx']: c['pre'] for c in cs}},
-                               note='real %s on %d symbolic bytes (all lengths 0..%d, all start offsets) vs independent specification' % (', '.join(c['cxx'] for c in cs), NA, NA)))
+                               note='real %s on %d symbolic bytes (all lengths 0..%d, all start offsets) vs independent specification%s' % (', '.join(c['cxx'] for c in cs), NA, NA, (' over ' + input_t) if input_t else '')))
     return qs
